@@ -132,6 +132,9 @@ def configs(fp, cls):
                 kw["optimization_options"] = dict(NONEMPTY_OPTS) if o is None else o
             kw["solver_options"] = dict(SOLVER_OPTS)
         mk("plain", lambda kw: opts(kw))
+        # a finite time limit (generous): between the first and the second solve() the clock is moved on by more than the
+        # limit (idempotence below), so a budget that is kept on the object instead of per call shows
+        mk("finite_time_limit", lambda kw: (opts(kw), kw.update(solver_options=dict(SOLVER_OPTS, time_limit=600))))
         mk("empty_options", lambda kw: (opts(kw, {}), kw.update(solver_options={})))
 
         def cons(kw):
@@ -480,7 +483,14 @@ def idempotence(ctx, cls, name, builder, obs):
             except Exception as e:
                 report(ctx, f"{cls} ({name}): get_solution({gp[0]}=...) raised {type(e).__name__}: {str(e)[:100]}", inp,
                        site=f"{cls}.get_solution:repeat")
-        s2 = m.solve()
+        import time as _time
+        real_clock = _time.perf_counter
+        if name == "finite_time_limit":
+            _time.perf_counter = lambda: real_clock() + 10 ** 5       # "a day later"
+        try:
+            s2 = m.solve()
+        finally:
+            _time.perf_counter = real_clock
         g3 = K.comparable(m.get_solution())
         if g1 is None and g2 is not None:
             report(ctx, f"{cls} ({name}): get_solution() returned None on the first call and data on the second", inp,
@@ -841,7 +851,7 @@ def observe_all(ctx, with_idempotence=True):
             observe_config(ctx, cls, name, b, obs)
         if with_idempotence and cls in K.ALL_MODELS:
             for name, b in cfgs:
-                if name.split(":")[0] in ("plain", "given_weights", "node", "defaults"):
+                if name.split(":")[0] in ("plain", "given_weights", "node", "defaults", "finite_time_limit"):
                     idempotence(ctx, cls, name, b, obs)
             getter_tie(ctx, cls, obs)
         class_tie(ctx, cls, obs, [n for n, _ in cfgs])
